@@ -747,6 +747,24 @@ class CFG:
         r = go(start)
         return r if r is not None else (-1, -1)
 
+    def exc_succ_for(self, n: Node, cls: str) -> list[Node]:
+        """Where an exception of class `cls` raised at n goes first: the first handler (in order)
+        that definitely catches it, else the pass-through target (cleanup copy / outer / RAISE)."""
+        out: list[Node] = []
+        for t, lab in n.succ:
+            if lab != "exc":
+                continue
+            if t.kind == "handler":
+                classes = self.handler_classes(t.ast)  # type: ignore[arg-type]
+                if any(exc_is_sub(cls, c) for c in classes):
+                    out.append(t)
+                    return out
+                if any(exc_is_sub(c, cls) for c in classes):
+                    out.append(t)
+                continue
+            out.append(t)
+        return out
+
     # ------------------------------------------------------------------ presentation
     @staticmethod
     def show_path(path: list[Node] | None, limit: int = 14) -> str:
